@@ -16,7 +16,8 @@ RULE = ("(a) dtest A --cmp B (and the six named operators) on pairs of the same 
         "== lines whose date satisfies OP. (c) dsort [-r] on generated files (duplicates, several "
         "dates per line, lines without dates): output is a permutation of the input and keys are "
         "monotone. Non-trivial: pairs straddling a month / year / ISO-year boundary or differing "
-        "only in time; sort inputs with a tie and an inversion")
+        "only in time; sort inputs with a tie and an inversion"
+        " Also: epoch seconds, --from-zone of a constant offset, ymcw dates with the last occurrence spelled as count 5, and D T24:00:00 (= D+1 T00:00:00).")
 ASSUMPTIONS = ["reference order = order of (day number, second of day)",
                "mixed-kind / mixed-calendar comparisons are documented as non-comparable and not asserted",
                "position of undated lines in dsort output is not asserted"]
